@@ -81,7 +81,7 @@ def dec2dms(x):
         sign = '+'
     # round to the printed precision first (integer hundredths of an arcsecond)
     # so that a carry propagates into the minutes and degrees
-    n = int(round(abs(x) * 360000))
+    n = int(round(abs(float(x)) * 360000))
     d = n // 360000
     m = n // 6000 % 60
     cs = n % 6000
@@ -108,7 +108,7 @@ def dec2hms(x):
     # round to the printed precision first (integer hundredths of a second of
     # time) so that a carry propagates into the minutes and hours, and wrap
     # negative RA's and 24h into [0h, 24h)
-    n = int(round(x * 24000)) % 8640000
+    n = int(round(float(x) * 24000)) % 8640000
     h = n // 360000
     m = n // 6000 % 60
     cs = n % 6000
